@@ -7,7 +7,7 @@
     is interpreted by [ParseActionsXPath.act] as a value whose abstraction is [a] itself.
     Precedence and left associativity of the eight operator levels are corollaries. *)
 From Coq Require Import List NArith Arith Lia Bool.
-From XmlRs Require Import Base.CPred Spec.XmlChars Spec.XPathSyntax Model.Peg Model.XPathAst Proofs.GrammarTermination
+From XmlRs Require Import Base.CPred Spec.XmlChars Spec.XPathSyntax Model.Peg Model.XPathAst
   Model.ParseActionsXPath Model.XPathAstAbs Gen.GrammarXPathGen
   Proofs.XPathParseBase Proofs.XPathParseProds Proofs.XPathParseLex Proofs.XPathParseAct
   Proofs.XPathParseFollow Proofs.XPathParseChains.
@@ -831,6 +831,12 @@ Proof.
   repeat split; try tauto.
 Qed.
 
+(** the termination certificate of the regenerated XPath grammar, checked by computation (the same
+    check as Proofs/GrammarTermination.v, repeated here so that this file does not depend on the
+    XML grammar) *)
+Lemma G_xpath_cert_c08 : cert_okb G_xpath G_xpath_nulls G_xpath_ranks G_xpath_R = true.
+Proof. vm_compute. reflexivity. Qed.
+
 (** ** the round trip for [parse_expr] *)
 Theorem parse_spell_surface_rung1 a w :
   wfb a = true -> rung1 a = true -> ws_ok w = true ->
@@ -841,6 +847,6 @@ Proof.
   exists e. split; [|exact Hab]. unfold parse_expr, run_expr.
   rewrite app_nil_r in HP.
   assert (HP' : P (NT nt_expr) (spell_surface a w) t []) by (apply parses_nt; rewrite prod_expr; exact HP).
-  rewrite (parses_run G_xpath G_xpath_nulls G_xpath_ranks G_xpath_R nt_expr _ _ _ Proofs.GrammarTermination.G_xpath_cert HP').
+  rewrite (parses_run G_xpath G_xpath_nulls G_xpath_ranks G_xpath_R nt_expr _ _ _ G_xpath_cert_c08 HP').
   now rewrite Ha.
 Qed.
